@@ -354,3 +354,121 @@ def inherited_member_sites(ctx):
     if not out:
         raise AnalysisError("no code filling Type.in_children found")
     return out
+
+
+# ------------------------------------------------------- small semantic helpers
+def slice_attrs(ctx, f, e, at, depth=0, seen=None):
+    """Attribute names read in the backward slice of expression `e` evaluated at
+    statement `at`: through every reaching definition of the locals it mentions
+    and through the tests that decide which definition runs (control dependence
+    inside the function).  Robust to naming a condition, splitting it over an
+    if/else, or routing it through an inlined helper."""
+    seen = seen if seen is not None else set()
+    out = {x.attr for x in ast.walk(e) if isinstance(x, ast.Attribute)}
+    if depth > 6:
+        return out
+    for x in ast.walk(e):
+        if not (isinstance(x, ast.Name) and isinstance(x.ctx, ast.Load)):
+            continue
+        for d in reaching_def_nodes(ctx, f, at, x.id):
+            if d == "param" or id(d) in seen:
+                continue
+            seen.add(id(d))
+            val = getattr(d, "value", None)
+            if isinstance(d, ast.For):
+                val = d.iter
+            if val is not None:
+                out |= slice_attrs(ctx, f, val, d, depth + 1, seen)
+            # control dependence: tests of the ifs that enclose the definition but not the use
+            anc_at = set()
+            p = at
+            while p is not None:
+                anc_at.add(id(p))
+                p = ctx.m.parent.get(p)
+            p = ctx.m.parent.get(d)
+            while p is not None and id(p) not in anc_at:
+                if isinstance(p, (ast.If, ast.While)):
+                    out |= slice_attrs(ctx, f, p.test, p, depth + 1, seen)
+                p = ctx.m.parent.get(p)
+    return out
+
+
+def bool_models(expr, atom_of):
+    """Truth-table view of a test expression.  `atom_of(sub)` returns (key, positive)
+    for sub-expressions it understands; every other leaf becomes a free atom keyed
+    by its text.  Returns (sorted atom keys, eval(assignment dict) -> bool)."""
+    atoms = set()
+
+    def build(e):
+        if isinstance(e, ast.BoolOp):
+            parts = [build(v) for v in e.values]
+            if isinstance(e.op, ast.And):
+                return lambda a: all(p(a) for p in parts)
+            return lambda a: any(p(a) for p in parts)
+        if isinstance(e, ast.UnaryOp) and isinstance(e.op, ast.Not):
+            inner = build(e.operand)
+            return lambda a: not inner(a)
+        r = atom_of(e)
+        if r is not None:
+            k, pos = r
+            atoms.add(k)
+            return (lambda a: a[k]) if pos else (lambda a: not a[k])
+        if isinstance(e, ast.Constant):
+            v = bool(e.value)
+            return lambda a: v
+        k = "?" + ast.unparse(e)
+        atoms.add(k)
+        return lambda a: a[k]
+
+    fn = build(expr)
+    return sorted(atoms), fn
+
+
+def cond_implies(expr, polarity, goal, atom_of):
+    """Does `expr == polarity` imply goal(assignment) for every assignment of the atoms?"""
+    import itertools
+
+    atoms, fn = bool_models(expr, atom_of)
+    if len(atoms) > 12:
+        return False
+    for vals in itertools.product((False, True), repeat=len(atoms)):
+        a = dict(zip(atoms, vals))
+        if fn(a) == polarity and not goal(a):
+            return False
+    return True
+
+
+def emptiness_atom(e, path_pred):
+    """(key 'empty:<path>', positive) for len(X)==0 / not X / len(X)>0 / X ... where
+    path_pred(text of X) holds"""
+    def is_len(x):
+        return isinstance(x, ast.Call) and isinstance(x.func, ast.Name) and x.func.id == "len" and len(x.args) == 1 and path_pred(ast.unparse(x.args[0]))
+
+    if isinstance(e, ast.Compare) and len(e.ops) == 1:
+        l, op, r = e.left, e.ops[0], e.comparators[0]
+        if is_len(r) and isinstance(l, ast.Constant):
+            # mirror: 0 < len(x)
+            flip = {ast.Lt: ast.Gt, ast.Gt: ast.Lt, ast.LtE: ast.GtE, ast.GtE: ast.LtE, ast.Eq: ast.Eq, ast.NotEq: ast.NotEq}
+            l, r, op = r, l, flip[type(op)]()
+        if is_len(l) and isinstance(r, ast.Constant) and isinstance(r.value, int):
+            k = "empty:" + ast.unparse(l.args[0])
+            n = r.value
+            if isinstance(op, ast.Eq) and n == 0 or isinstance(op, ast.Lt) and n == 1 or isinstance(op, ast.LtE) and n == 0:
+                return k, True
+            if isinstance(op, ast.Gt) and n == 0 or isinstance(op, ast.GtE) and n == 1 or isinstance(op, ast.NotEq) and n == 0:
+                return k, False
+        return None
+    if is_len(e):
+        return "empty:" + ast.unparse(e.args[0]), False
+    if isinstance(e, (ast.Name, ast.Attribute)) and path_pred(ast.unparse(e)):
+        return "empty:" + ast.unparse(e), False
+    if isinstance(e, ast.Call) and isinstance(e.func, ast.Name) and e.func.id == "bool" and len(e.args) == 1 and path_pred(ast.unparse(e.args[0])):
+        return "empty:" + ast.unparse(e.args[0]), False
+    return None
+
+
+def membership_atom(e, coll_pred):
+    """(key 'in:<elem>:<coll>', positive) for `x in C` / `x not in C` with coll_pred(text of C)"""
+    if isinstance(e, ast.Compare) and len(e.ops) == 1 and isinstance(e.ops[0], (ast.In, ast.NotIn)) and coll_pred(ast.unparse(e.comparators[0])):
+        return "in:" + ast.unparse(e.comparators[0]), isinstance(e.ops[0], ast.In)
+    return None
